@@ -8,6 +8,7 @@ import Vgw.Driver.Policy
 import Vgw.Driver.BucketName
 import Vgw.Driver.Path
 import Vgw.Driver.Walk
+import Vgw.Driver.Race
 import Vgw.Driver.Chunk
 
 structure DriverState where
@@ -22,6 +23,7 @@ def dispatch (d : DriverState) (line : String) : DriverState × String :=
   | "path" :: rest => (d, (Vgw.Driver.Path.handle rest).getD "bad-op")
   | "walk" :: rest => (d, (Vgw.Driver.Walk.handle rest).getD "bad-op")
   | "chunk" :: rest => (d, (Vgw.Driver.Chunk.handle rest).getD "bad-op")
+  | "race" :: rest => (d, (Vgw.Driver.Race.handle rest).getD "bad-op")
   | "bucketname" :: rest => (d, (Vgw.Driver.BucketName.handle rest).getD "bad-op")
   | "glob" :: rest => (d, (Vgw.Driver.Policy.globHandle rest).getD "bad-op")
   | "policy" :: rest => (d, (Vgw.Driver.Policy.handle rest).getD "bad-op")
